@@ -1,6 +1,7 @@
 (* C01 - A successful sync makes the destination a mirror of the source.  Statements only. *)
 From RJ Require Import Base.Prelude Base.OrderedPlan Model.Settings Model.Core Model.Fs Model.Paths Model.Sync Model.SyncTop Model.Roots
   Spec.PlanSpec Spec.Mirror Proofs.ExecProofs Proofs.PathsProofs Proofs.MirrorProofs Proofs.InstanceProofs.
+From RJ Require Model.Walker Proofs.WalkBridge Proofs.WalkedSync.
 
 (* The mirror theorem: for every source tree, destination state, filter verdict, behaviour setting,
    answer sequence, listing order (any valid listing), interleaving and fault plan - if sync() returns
@@ -38,6 +39,24 @@ Theorem C01_mirror_unconditional : forall cfg S D a ans bits ex ft,
   mirror now_far (excl_incl ex) normalize_unix (cf_diff cfg) Unix S D (d_fs (r_dest r)).
 Proof. exact run_top_mirror_unconditional. Qed.
 
+(* ... and with BOTH listing premises discharged by the directory walk (C17, Proofs/WalkBridge.v) and the
+   premise "nothing went through a link" by C02's theorem for every run: the boss is given on each side
+   whatever ANY execution of the N-worker walk over that side's tree delivers before its end-of-list
+   marker ([walked]: any number of workers, any queue capacity, any interleaving; such an answer always
+   exists) - and a sync that returns Ok without skips mirrors the source. *)
+Theorem C01_mirror_walked : forall now_z incl normalize chunker,
+  (forall d, chunker d <> [] /\ concat (chunker d) = d) ->
+  forall dest_fl cfg S D ans bits ls ld ft,
+  wf_fs S -> wf_fs (d_fs D) -> src_times_set S -> links_roundtrip normalize dest_fl S ->
+  d_open D = None -> no_through (d_events D) ->
+  WalkedSync.walked now_z incl normalize S ls -> WalkedSync.walked now_z incl normalize (d_fs D) ld ->
+  let r := sync_one now_z normalize chunker cfg S D ans bits ls ld ft in
+  r_ok r = true -> r_skipped r = [] -> r_root_skipped r = false -> cf_dry cfg = false -> cf_fl cfg = dest_fl ->
+  mirror now_z incl normalize (cf_diff cfg) dest_fl S (d_fs D) (d_fs (r_dest r)).
+Proof. exact WalkedSync.walked_sync_mirrors. Qed.
+Theorem C01_walked_listing_exists : forall now_z incl normalize f, exists l, WalkedSync.walked now_z incl normalize f l.
+Proof. exact WalkedSync.walked_exists. Qed.
+
 (* Link text: what is written on the destination has the same components as the source text for a
    relative target and is the text itself otherwise; and it normalises to the same target again. *)
 Theorem C01_link_text : forall t, lossy t = t -> same_path_text t (denormalize Unix (normalize_unix t)) = true.
@@ -72,3 +91,5 @@ Print Assumptions C01_mirror.
 Print Assumptions C01_mirror_unconditional.
 Print Assumptions C01_mirror_executable.
 Print Assumptions C01_table.
+Print Assumptions C01_mirror_walked.
+Print Assumptions C01_walked_listing_exists.
